@@ -11,17 +11,17 @@ RULES = {
     "C04": [("sa.rules.b2", "r_C04"), ("sa.rules.c04", "r_C04a"), ("sa.rules.c01", "r_C01ef")],
     "C05": [("sa.rules.b3", "r_C05_C10"), ("sa.rules.c05", "r_C05cde")],
     "C06": [("sa.rules.b7", "r_origin")],
-    "C07": [("sa.rules.b3", "r_C07"), ("sa.rules.b6", "r_C03bc"), ("sa.rules.c03", "r_C03fgh"), ("sa.rules.c05", "r_C07c")],
+    "C07": [("sa.rules.b3", "r_C07"), ("sa.rules.b6", "r_C03bc"), ("sa.rules.c03", "r_C03fgh"), ("sa.rules.c05", "r_C07c"), ("sa.rules.c05", "r_none_tests")],
     "C08": [("sa.rules.b3", "r_C08_C34"), ("sa.rules.b3", "r_C02cd"), ("sa.rules.c08", "r_C08bc")],
     "C09": [("sa.rules.b3", "r_C09")],
-    "C10": [("sa.rules.b3", "r_C05_C10")],
-    "C11": [("sa.rules.b3", "r_C03de_C11a_C17bc"), ("sa.rules.c11", "r_C11b")],
+    "C10": [("sa.rules.b3", "r_C05_C10"), ("sa.rules.c05", "r_none_tests")],
+    "C11": [("sa.rules.b3", "r_C03de_C11a_C17bc"), ("sa.rules.c11", "r_C11b"), ("sa.rules.c05", "r_none_tests")],
     "C12": [("sa.rules.b1", "r_C12a"), ("sa.rules.c12", "r_C12b"), ("sa.rules.c05", "r_C12c")],
     "C13": [("sa.rules.b3", "r_C13")],
     "C14": [("sa.rules.b4", "r_ledger"), ("sa.rules.b1", "r_C14c")],
     "C15": [("sa.rules.b4", "r_ledger")],
     "C16": [("sa.rules.b3", "r_C16a")],
-    "C17": [("sa.rules.b3", "r_C03de_C11a_C17bc"), ("sa.rules.b6", "r_C17ad_C22b")],
+    "C17": [("sa.rules.b3", "r_C03de_C11a_C17bc"), ("sa.rules.b6", "r_C17ad_C22b"), ("sa.rules.c05", "r_none_tests")],
     "C18": [("sa.rules.b4", "r_ledger")],
     "C19": [("sa.rules.b6", "r_C19a_C01")],
     "C20": [("sa.rules.b1", "r_C20a"), ("sa.rules.b6", "r_C19a_C01")],
